@@ -1137,6 +1137,15 @@ func (a *Agent) SocksClientGet(SocketID int) *SocksClient {
 	return client
 }
 
+/* socksClientConn returns the connection of the socks client as it is now: nil once the client
+ * has been closed, which any goroutine (relay reader, agent callback, operator command) may do */
+func (a *Agent) socksClientConn(client *SocksClient) net.Conn {
+	a.SocksCliMtx.Lock()
+	defer a.SocksCliMtx.Unlock()
+
+	return client.Conn
+}
+
 func (a *Agent) SocksClientRead(client *SocksClient) ([]byte, error) {
 	var (
 		data  = make([]byte, 0x10000)
@@ -1144,12 +1153,16 @@ func (a *Agent) SocksClientRead(client *SocksClient) ([]byte, error) {
 	)
 
 	if client != nil {
-		if client.Conn != nil {
+		/* the socket may be closed (and forgotten) by a callback of the agent at any time:
+		 * work on the connection we see now, not on the field */
+		conn := a.socksClientConn(client)
+
+		if conn != nil {
 			if client.Connected {
 
 				/* read from our socket to the data buffer or return error */
-				client.Conn.SetReadDeadline(time.Time{})
-				length, err := client.Conn.Read(data)
+				conn.SetReadDeadline(time.Time{})
+				length, err := conn.Read(data)
 				if err != nil {
 					return nil, err
 				}
